@@ -514,6 +514,9 @@ class Multiplexer(wiring.Component):
     """
     def __init__(self, memory_map, *, shadow_overlaps=None):
         self._check_memory_map(memory_map)
+        if shadow_overlaps is not None and not (isinstance(shadow_overlaps, int) and shadow_overlaps >= 0):
+            raise TypeError(f"Shadow overlaps must be None or a non-negative integer, not "
+                            f"{shadow_overlaps!r}")
         self._r_shadow = self._Shadow(memory_map.data_width, shadow_overlaps, name="r_shadow")
         self._w_shadow = self._Shadow(memory_map.data_width, shadow_overlaps, name="w_shadow")
         super().__init__({
